@@ -357,7 +357,7 @@ def shard(ctx: Ctx):
     quick = ctx.tier == 'quick'
     feats = strict_features()
     wfeat = frozenset(f for f in feats if f == 'prop_newline')
-    k_styles = 2 if quick else 8
+    k_styles = 2 if quick else 5
     # (i) exhaustive products
     docs = list(enumerated())
     for n, (gname, s) in enumerate(docs):
@@ -368,7 +368,7 @@ def shard(ctx: Ctx):
     ctx.exhaustive_arms.append(f'per-element products: {len(docs)} packed documents x (canonical + {k_styles} sampled styles)')
 
     # (ii) sampled whole documents
-    n = 70 if quick else 2500
+    n = 70 if quick else 700
     sizes = gen.QUICK if quick else gen.THOROUGH
 
     @st.composite
@@ -394,5 +394,5 @@ def shard(ctx: Ctx):
 
         before = ctx.known.get(fid, 0)
         hyp_run(ctx, f'zone:{feat}', zcases(), lambda c: evaluate_schema(c[0], c[1], f'zone:{feat}', ctx),
-                12 if quick else 150)
+                12 if quick else 60)
         ctx.excluded[feat] += 0
